@@ -23,7 +23,7 @@ open Lemmas.Stats Lemmas.Family Lemmas.C03 Lemmas.C01
 
 /-! ## 1. LinearScaling: the mean of the corrected reference period is the observed mean -/
 
-theorem ls_mean_add (obs H : List Rat) (hH : H ≠ []) : mean (linearScaling .additive obs H H) = mean obs := by
+theorem ls_mean_add (obs H : List Rat) (_hO : obs ≠ []) (hH : H ≠ []) : mean (linearScaling .additive obs H H) = mean obs := by
   unfold linearScaling
   rw [mean_map_sub _ _ hH]; ring
 
@@ -35,10 +35,10 @@ theorem ls_mean_mult (obs H : List Rat) (hm : mean H ≠ 0) : mean (linearScalin
 /-- both delta types under the model's `lsGuard` -/
 theorem ls_mean (d : DeltaType) (obs H : List Rat) (hg : lsGuard d obs H) : mean (linearScaling d obs H H) = mean obs := by
   cases d with
-  | additive => exact ls_mean_add obs H hg.2.1
+  | additive => exact ls_mean_add obs H hg.1 hg.2.1
   | multiplicative => exact ls_mean_mult obs H (hg.2.2 rfl)
 
-example : mean (linearScaling .additive [1, 2, 6] [10, 14] [10, 14]) = mean [1, 2, 6] := ls_mean_add _ _ (by simp)
+example : mean (linearScaling .additive [1, 2, 6] [10, 14] [10, 14]) = mean [1, 2, 6] := ls_mean_add _ _ (by simp) (by simp)
 example : mean (linearScaling .multiplicative [1, 2, 6] [10, 14] [10, 14]) = mean [1, 2, 6] :=
   ls_mean .multiplicative _ _ (by decide +kernel)
 -- the residual bias is really removed, not merely bounded: before the correction the bias is 9
@@ -52,9 +52,10 @@ theorem dc_id (d : DeltaType) (obs H : List Rat) (hg : dcGuard d H H) : deltaCha
 /-- … in running-window mode as well (every step assigned; multiplicative guard on every window) -/
 theorem dc_id_rw (dt : DeltaType) (L S h : Int) (dO dH : List Int) (obs H : List Rat)
     (hS : S = 2 * h + 1) (hh : 0 ≤ h) (hSL : S ≤ L) (hlen : dO.length = obs.length) (hr : ∀ d ∈ dO, 1 ≤ d ∧ d ≤ 366)
+    (hne : ∀ c ∈ useCenters S dO, take H (idxWindow L dH c) ≠ [])
     (hm : dt = .multiplicative → ∀ c ∈ useCenters S dO, mean (take H (idxWindow L dH c)) ≠ 0) :
     applyLocationDC (winOf (deltaChange dt)) L S dO dH dH obs H H = .ok (obs.map some) :=
-  Props.C03.dc_identity_rw dt L S h dO dH obs H hS hh hSL hlen hr hm
+  Props.C03.dc_identity_rw dt L S h dO dH obs H hS hh hSL hlen hr hne hm
 
 /-! ## 3. Parametric QuantileMapping and ECDFM over any location–scale family: the location–scale map -/
 
@@ -175,6 +176,16 @@ theorem cdft_rank_transfer_clamped (d : DeltaShift) (obs H : List Rat) (hlen : o
   intro y _
   simp only [Function.comp, ecdf1_linear]
   exact iecdfLinear_ecdfLin_clamp hH' (by omega) y
+
+/-- … as multisets: the output is a permutation of the observations clamped to the range of `H'` (what the oracle of
+    `harness/c01.py` compares: `sorted(out) == clip(sorted(obs), min H', max H')`) -/
+theorem cdft_clamped_perm (d : DeltaShift) (obs H : List Rat) (hlen : obs.length = H.length) (hn : 2 ≤ H.length)
+    (hH' : (cdftShifted d obs H H).1.Nodup) :
+    (cdftMapping d .linear .linear obs H H).Perm
+      (obs.map (fun y => max (minQ (cdftShifted d obs H H).1) (min (maxQ (cdftShifted d obs H H).1) y))) := by
+  have hl' : (cdftShifted d obs H H).1.length = H.length := by cases d <;> simp [cdftShifted]
+  rw [cdft_rank_transfer_clamped d obs H hlen hn hH']
+  exact (sortLike_perm obs (cdftShifted d obs H H).1 (by omega)).map _
 
 /-- **with the range guard** (`range obs ⊆ range H'`) the clamp is inactive: the output is the observations
     re-ordered like the model — exactly the observed multiset -/
@@ -310,6 +321,33 @@ example : (applyOnWindow { trendMethod := .additive, nonparametricQm := false, d
     ⟨rfl, rfl, rfl, rfl, rfl, rfl, rfl⟩ Model.Family.ratSigmoid ratSigmoid_laws meanAbsDevAt {} rfl {}
     [1, 2, 6] [10, 14, 18, 22] [2000, 2000, 2001] [2000, 2000, 2001, 2001]
     (Or.inr ⟨rfl, rfl, rfl, rfl, rfl⟩) (by decide) (by decide) (by decide +kernel) (by decide +kernel) (by decide +kernel)
+
+/-- **the trend step 3 removes is centred**: the annual trend values `slope · (year − mean(unique years))` sum to zero over
+    the unique years, whatever the data — so removing / restoring it does not move the mean of a series with equally many
+    values per year (an anchor other than the mean year, e.g. the first year, shifts obs and cm_hist by
+    `slope · half-span` each and leaves a residual bias `(slope_cm − slope_obs) · (n_years − 1)/2`). -/
+theorem isimip_annual_trend_centred (c : Cfg) (sig : Bool) (x : List Rat) (years : List Int) :
+    (annualTrend c sig x years).sum = 0 := by
+  unfold annualTrend
+  simp only []
+  split
+  · generalize (uniqueYears years).map (fun (y : Int) => (y : Rat)) = uy
+    generalize linSlope uy (yearlyMeans x years) = s
+    by_cases hne : uy = []
+    · subst hne; rfl
+    · have hn := length_cast_ne_zero hne
+      have e : uy.map (fun y => s * (y - Model.Stats.mean uy)) = uy.map (fun y => s * y + (-(s * Model.Stats.mean uy))) := by
+        apply List.map_congr_left; intro y _; ring
+      rw [e, sum_affine]
+      unfold Model.Stats.mean
+      field_simp
+      ring
+  · induction (uniqueYears years).map (fun (y : Int) => (y : Rat)) with
+    | nil => rfl
+    | cons a t _ => simp
+
+example : (annualTrend { trendMethod := .additive, nonparametricQm := false, detrending := true } true [1, 2, 4, 7]
+    [2000, 2000, 2001, 2002]).sum = 0 := isimip_annual_trend_centred _ _ _ _
 
 /-- the configuration is satisfiable: ISIMIP's tas settings with `detrending = False` -/
 example : TasCfg { trendMethod := .additive, nonparametricQm := false, detrending := false } :=
